@@ -959,7 +959,15 @@ class Node:
 
         assert not self._children
         for child in other.children:
-            new_child = self.add_child(child.data, data_id=child._data_id)
+            kind = getattr(child, "_kind", None)  # only TypedNodes have that slot
+            if kind is None:
+                new_child = self.add_child(child.data, data_id=child._data_id)
+            else:  # typed nodes: a copy keeps the kind of its source
+                new_child = self.add_child(
+                    child.data,
+                    kind=kind,  # type: ignore
+                    data_id=child._data_id,
+                )
             if child.children:
                 # if child.has_children():
                 new_child._add_from(child, predicate=None)
